@@ -301,6 +301,69 @@ pub fn main(tier: Tier) -> i32 {
             }
         }
     }
+    // (3b) wide node-assigned ids: the id is 64 bits, and channels of one peer whose ids agree in
+    // the low (or high) half are different channels.  Ids 2^32+1, 2^63+1 and 2^64-2 next to id 1,
+    // created in both orders; the observations join the canonical map, so that the stability and
+    // the pairwise-distinctness checks cover them.
+    let wide: Vec<u64> = vec![(1u64 << 32) + 1, (1u64 << 63) + 1, u64::MAX - 1];
+    for (si, seed) in seeds.iter().enumerate() {
+        for (style, sname) in styles.iter() {
+            for rev in [false, true] {
+                evaluations += 1;
+                let mut order = vec![1u64];
+                order.extend(wide.iter().cloned());
+                if rev {
+                    order.reverse();
+                }
+                let desc = json!({"part": "wide-ids", "seed": si, "style": sname, "order": order.iter().map(|d| d.to_string()).collect::<Vec<_>>()});
+                let ord = order.clone();
+                let res = catch(|| {
+                    let k = new_node(*seed, *style, Network::Regtest);
+                    for &d in ord.iter() {
+                        let (peer, oid) = peer_and_oid(d);
+                        if k.node.new_channel(oid, &peer, &k.node).is_err() {
+                            return Err(format!("channel-not-created: new_channel({}) failed", d));
+                        }
+                    }
+                    let mut obs = vec![];
+                    for &d in ord.iter() {
+                        match observe(&k, d) {
+                            Some(o) => obs.push((d, o)),
+                            None => return Err(format!("channel-not-created: channel {} was asked for and does not exist at the end", d)),
+                        }
+                    }
+                    if k.node.get_channels().len() != ord.len() {
+                        return Err(format!("channel-not-created: {} channels were asked for, {} exist", ord.len(), k.node.get_channels().len()));
+                    }
+                    Ok(obs)
+                });
+                match res {
+                    Ok(Ok(obs)) => {
+                        for (d, o) in obs {
+                            observations += 1;
+                            let key = (si, *sname, Network::Regtest.to_string(), d);
+                            match canon.get(&key) {
+                                None => {
+                                    canon.insert(key, o.clone());
+                                }
+                                Some(c) => {
+                                    if let Some(diff) = json_diff(c, &o) {
+                                        run.violation(&format!("C18:keys-depend-on-history:{}:wide-ids", sname), &format!("channel {} differs between two creation orders: {}", d, diff), desc.clone());
+                                    }
+                                }
+                            }
+                            distinct.insert(fp(&o));
+                        }
+                    }
+                    Ok(Err(e)) => {
+                        let key = if e.starts_with("channel-not-created") { "C18:channel-not-created" } else { "C18:machinery" };
+                        run.violation(key, &e, desc.clone());
+                    }
+                    Err(p) => run.violation("C18:panic", &format!("panicked: {} at {}", p, last_panic_loc()), desc.clone()),
+                }
+            }
+        }
+    }
     // (4) the answers of the request path on an advancing channel: whatever number the holder's
     // counter has reached (and across a restart), a point or secret that is handed out for
     // commitment n is the one of the key material for n -- never a function of the counter
